@@ -1,6 +1,10 @@
 package odt
 
-import "encoding/xml"
+import (
+	"encoding/xml"
+	"strconv"
+	"strings"
+)
 
 // ODF XML namespaces
 const (
@@ -42,6 +46,10 @@ type bodyElement struct {
 }
 
 // paragraphXML represents a paragraph element (<text:p>).
+//
+// Spans holds the paragraph's inline content in document order (see
+// decodeInlineContent): character data directly inside the paragraph is carried
+// as a span without style name, so Text stays empty after decoding.
 type paragraphXML struct {
 	XMLName   xml.Name  `xml:"p"`
 	StyleName string    `xml:"style-name,attr"`
@@ -49,7 +57,18 @@ type paragraphXML struct {
 	Text      string    `xml:",chardata"`
 }
 
+// UnmarshalXML decodes a paragraph keeping its mixed content in document order.
+func (p *paragraphXML) UnmarshalXML(d *xml.Decoder, start xml.StartElement) error {
+	p.XMLName = start.Name
+	p.StyleName = attrValue(start, "style-name")
+	spans, err := decodeInlineContent(d, "")
+	p.Spans = spans
+	return err
+}
+
 // headingXML represents a heading element (<text:h>).
+//
+// Spans holds the inline content in document order, as for paragraphXML.
 type headingXML struct {
 	XMLName      xml.Name  `xml:"h"`
 	StyleName    string    `xml:"style-name,attr"`
@@ -58,11 +77,88 @@ type headingXML struct {
 	Text         string    `xml:",chardata"`
 }
 
+// UnmarshalXML decodes a heading keeping its mixed content in document order.
+func (h *headingXML) UnmarshalXML(d *xml.Decoder, start xml.StartElement) error {
+	h.XMLName = start.Name
+	h.StyleName = attrValue(start, "style-name")
+	h.OutlineLevel = attrValue(start, "outline-level")
+	spans, err := decodeInlineContent(d, "")
+	h.Spans = spans
+	return err
+}
+
 // spanXML represents a text span with formatting (<text:span>).
 type spanXML struct {
 	XMLName   xml.Name `xml:"span"`
 	StyleName string   `xml:"style-name,attr"`
 	Text      string   `xml:",chardata"`
+}
+
+// attrValue returns the value of the attribute with the given local name.
+func attrValue(start xml.StartElement, local string) string {
+	for _, attr := range start.Attr {
+		if attr.Name.Local == local {
+			return attr.Value
+		}
+	}
+	return ""
+}
+
+// decodeInlineContent reads the mixed content of a paragraph-like element
+// (<text:p>, <text:h>, <text:span>, <text:a>) up to its end tag and returns it as
+// a flat list of spans in document order. Mapping character data and
+// <text:span> children to separate struct fields cannot express "a<span>b</span>c":
+// all character data would be joined first and the spans appended after it.
+//
+// styleName is the text style in effect (that of the enclosing span, if any).
+// <text:s>, <text:tab> and <text:line-break> become spaces, a tab and a newline.
+// Other inline elements (notes, frames, fields, bookmarks, ...) are skipped.
+func decodeInlineContent(d *xml.Decoder, styleName string) ([]spanXML, error) {
+	var spans []spanXML
+	for {
+		token, err := d.Token()
+		if err != nil {
+			return spans, err
+		}
+
+		switch t := token.(type) {
+		case xml.EndElement:
+			return spans, nil
+		case xml.CharData:
+			spans = append(spans, spanXML{StyleName: styleName, Text: string(t)})
+		case xml.StartElement:
+			text := ""
+			switch t.Name.Local {
+			case "span", "a":
+				style := styleName
+				if t.Name.Local == "span" {
+					style = attrValue(t, "style-name")
+				}
+				nested, err := decodeInlineContent(d, style)
+				spans = append(spans, nested...)
+				if err != nil {
+					return spans, err
+				}
+				continue
+			case "s":
+				count := 1
+				if c, err := strconv.Atoi(attrValue(t, "c")); err == nil && c > 0 {
+					count = c
+				}
+				text = strings.Repeat(" ", count)
+			case "tab":
+				text = "\t"
+			case "line-break":
+				text = "\n"
+			}
+			if text != "" {
+				spans = append(spans, spanXML{StyleName: styleName, Text: text})
+			}
+			if err := d.Skip(); err != nil {
+				return spans, err
+			}
+		}
+	}
 }
 
 // listXML represents a list (<text:list>).
